@@ -421,7 +421,10 @@ class Check:
             os.makedirs(REPLAYS, exist_ok=True)
             h = hashlib.sha256(json.dumps(self.violations[:50], sort_keys=True, default=str).encode()).hexdigest()[:10]
             replay = os.path.join(REPLAYS, "%s-%s.ndjson" % (self.pid, h))
-            write_ndjson(replay, self.violations[:200])
+            # first line: how to reproduce (the checks are deterministic for a tier and a seed); then the violating inputs
+            write_ndjson(replay, [{"replay_of": self.pid, "tier": self.tier, "seed": self.seed,
+                                   "how": "bin/check %s --replay <this file> re-runs the check with this tier and seed on /repo's current tree" % self.pid}]
+                         + self.violations[:200])
         ev = {"property_id": self.pid, "tier": self.tier, "seed": self.seed, "level": level, "coverage": cov,
               "assumptions": self.assumptions, "wall_s": round(time.time() - self.t0, 2),
               "violations": len(self.violations)}
